@@ -61,6 +61,14 @@ func NewRequestContext(ctx context.Context, req *envoy_auth.CheckRequest) *Reque
 		}
 	}
 
+	// envoy provides the path as received, that is in its escaped form
+	rawPath := req.GetAttributes().GetRequest().GetHttp().GetPath()
+
+	path, err := url.PathUnescape(rawPath)
+	if err != nil {
+		path = rawPath
+	}
+
 	return &RequestContext{
 		ctx:        ctx,
 		ips:        clientIPs,
@@ -69,7 +77,8 @@ func NewRequestContext(ctx context.Context, req *envoy_auth.CheckRequest) *Reque
 		reqURL: &url.URL{
 			Scheme:   req.GetAttributes().GetRequest().GetHttp().GetScheme(),
 			Host:     req.GetAttributes().GetRequest().GetHttp().GetHost(),
-			Path:     req.GetAttributes().GetRequest().GetHttp().GetPath(),
+			Path:     path,
+			RawPath:  rawPath,
 			RawQuery: req.GetAttributes().GetRequest().GetHttp().GetQuery(),
 			Fragment: req.GetAttributes().GetRequest().GetHttp().GetFragment(),
 		},
